@@ -72,6 +72,8 @@ def main():
         suite = json.load(open(os.path.join(d, 'suite.json'))) if os.path.exists(os.path.join(d, 'suite.json')) else {}
         det = json.load(open(os.path.join(d, 'detect.json'))) if os.path.exists(os.path.join(d, 'detect.json')) else {}
         det = {k: v for k, v in det.items() if k.isdigit()}
+        if '1' not in det and res.get('checks', {}).get(meta['property']) and not meta.get('status'):
+            det['1'] = res['checks'][meta['property']]['rc']       # seed 1 = the run of the prescribed procedure on /repo (result.json)
         dets = '%d/%d' % (sum(1 for v in det.values() if v == 1), len(det)) if det else '-'
         caught = [p for p, r in res.get('checks', {}).items() if r['rc'] == 1]
         first = ''
